@@ -568,4 +568,42 @@ theorem C12_search_returns_best_warm (a : Algo) (b : Budget) (t00 : Tracker) (h0
           have := hall x (by rw [hfr]; exact List.mem_cons_self)
           exact ⟨x, rfl, this.1, this.2⟩
 
+/-! ## The public ranking helpers -/
+
+theorem sRun_fst_eq_foldl (b : Reg) (h : List Reg) :
+    (sRun (some b) h).1 = some (h.foldl (fun b y => if isBetter y.agg b.agg then y else b) b) := by
+  induction h generalizing b with
+  | nil => rfl
+  | cons r rs ih =>
+    simp only [sRun, sStep, List.foldl_cons]
+    split <;> exact ih _
+
+/-- The public helper and the tracker agree: ranking a population with `best_individual` names the individual a tracker would hold
+after seeing the same individuals in the same order -- ties go to the earlier one in both. -/
+theorem C12_helper_best_eq_tracker (h : List Reg) : helperBest h = (sRun none h).1 := by
+  cases h with
+  | nil => rfl
+  | cons r rs =>
+    simp only [helperBest, sRun, sStep]
+    exact (sRun_fst_eq_foldl r rs).symm
+
+/-- ... hence `best_individual` returns a member of the population whose aggregate no member exceeds. -/
+theorem C12_helper_best_is_max (h : List Reg) (hne : h ≠ []) :
+    ∃ r, helperBest h = some r ∧ r ∈ h ∧ ∀ x ∈ h, x.agg ≤ r.agg := by
+  rw [C12_helper_best_eq_tracker]
+  exact C12_best_is_max h hne
+
+/-- `is_better` is a strict order on aggregates: never both ways, never reflexive -/
+theorem C12_helper_is_better_strict (a b : Reg) :
+    helperIsBetter a a = false ∧ (helperIsBetter a b = true → helperIsBetter b a = false) := by
+  unfold helperIsBetter isBetter
+  constructor
+  · simp
+  · intro hab
+    simp only [decide_eq_true_eq] at hab
+    simp only [decide_eq_false_iff_not]
+    omega
+
+example : helperBest [⟨0, 3, 0⟩, ⟨1, 5, 0⟩, ⟨2, 5, 0⟩, ⟨3, 1, 0⟩] = some ⟨1, 5, 0⟩ := by decide
+
 end GEVerif.C12
